@@ -18,12 +18,24 @@ import (
 type RawCase struct {
 	Chunks  []live.Chunk
 	BufSize uint32
+	// SameDriver: the option sets are listened to one after the other on the same driver pair
+	SameDriver bool `json:",omitempty"`
 }
 
 func runRaw(c RawCase) (res ev.Result) {
+	runListen := live.RunListen
+	if c.SameDriver {
+		var loop *live.Loop
+		if p := ev.Try(func() { loop = live.NewLoop() }); p != "" {
+			res.Skip = true
+			return
+		}
+		runListen = loop.Run
+		res.Classes = append(res.Classes, "same-driver-listen-stop-listen")
+	}
 	all := live.AllOn
 	all.BufSize = c.BufSize
-	base, failed := live.RunListen(c.Chunks, all)
+	base, failed := runListen(c.Chunks, all)
 	if failed != "" {
 		res.Skip = true // crashes on arbitrary bytes are C06's business
 		return
@@ -38,7 +50,7 @@ func runRaw(c RawCase) (res ev.Result) {
 	res.Key = append([]byte{byte(c.BufSize)}, live.Concat(c.Chunks)...)
 	for mask := 0; mask < 7; mask++ {
 		o := live.Opts{ActiveSense: mask&1 != 0, TimeCode: mask&2 != 0, SysEx: mask&4 != 0, BufSize: c.BufSize}
-		got, failed := live.RunListen(c.Chunks, o)
+		got, failed := runListen(c.Chunks, o)
 		name := fmt.Sprintf("options{activeSense:%v timingClock:%v sysex:%v}", o.ActiveSense, o.TimeCode, o.SysEx)
 		if failed != "" {
 			res.Violation = name + ": " + failed
@@ -75,7 +87,7 @@ func clip(b []byte) []byte {
 }
 
 var arbitrary = ev.NewCheck("C14", "option-sets-arbitrary-streams",
-	"rapid: arbitrary byte streams built from segments (channel messages with and without status byte, sysex terminated or not, active sense / timing clock / other real-time bytes anywhere, system common, undefined bytes, random bytes), buffer sizes 4/16/1024, chunked arbitrarily; same metamorphic oracle as 'option-sets' (the statement is not limited to well-formed streams); non-trivial = the all-options run contains a sysex and a filterable real-time message; distinct by stream",
+	"rapid: arbitrary byte streams built from segments (channel messages with and without status byte, sysex terminated or not, active sense / timing clock / other real-time bytes anywhere, system common, undefined bytes, random bytes), buffer sizes 4/16/1024, chunked arbitrarily, on fresh driver pairs or one listening after the other on the same port (a new listening must not see decoder state or bytes from before it); same metamorphic oracle as 'option-sets' (the statement is not limited to well-formed streams); non-trivial = the all-options run contains a sysex and a filterable real-time message; distinct by stream",
 	func(t *rapid.T) RawCase {
 		var c RawCase
 		c.BufSize = uint32(rapid.SampledFrom([]int{0, 0, 4, 16}).Draw(t, "bufSize"))
@@ -110,6 +122,7 @@ var arbitrary = ev.NewCheck("C14", "option-sets-arbitrary-streams",
 			}
 		}
 		c.Chunks = live.Chunking(t, s, 300)
+		c.SameDriver = rapid.Bool().Draw(t, "sameDriver")
 		return c
 	}, runRaw)
 
